@@ -15,8 +15,8 @@ from orquesta import graphing
 from orquesta.composers import native as comp
 from orquesta.specs import native as native_specs
 
-from vt.env import Violation
-from vt.harness.common import ob
+from vt.env import Monitor, Violation
+from vt.harness.common import history_body, ob
 
 LEVEL = "exploration"
 RULE = "one evaluation per CrossHair path = one definition of the bit-encoded family (transition targets, join flags, declaration order chosen by solver-decided bits); non-trivial = accepted by inspect() and composed; distinct = distinct definition dicts"
@@ -185,8 +185,45 @@ def skeleton(ch, ctx, name, twin=False):
     return {"skeleton": name, "join": jv, "result": r}
 
 
+class GraphConstant(Monitor):
+    """The graph a conductor works on - and the one it persists - is the composed graph of the
+    definition, at every point of a history: conducting keeps its bookkeeping in the execution
+    state, never in the graph (retry policies, barriers and edges stay as declared)."""
+
+    prop = "C14"
+
+    def on_start(self, env):
+        env.graph0 = json.dumps(comp.WorkflowComposer.compose(env.spec).serialize(), sort_keys=True)
+
+    def check(self, env, where):
+        c = env.counters
+        c["c14_graph_compared"] = c.get("c14_graph_compared", 0) + 1
+        live = json.dumps(env.c.graph.serialize(), sort_keys=True)
+        kept = json.dumps(env.c.serialize()["graph"], sort_keys=True)
+        for name, g in (("working", live), ("persisted", kept)):
+            if g != env.graph0:
+                a, b = json.loads(env.graph0), json.loads(g)
+                nodes = [n["id"] for n, m in zip(a.get("nodes", []), b.get("nodes", [])) if n != m]
+                self.fail(env, "graph-changed", "C14 the %s graph of the conductor differs from the composed graph of the definition %s (nodes that differ: %s)" % (name, where, nodes), which=name, nodes=",".join(nodes))
+
+    def after_call(self, env, name):
+        self.check(env, "after " + name)
+
+    def on_crash(self, env, data):
+        self.check(env, "after a restore")
+
+
+def conducted(ch, ctx, did, **kw):
+    return history_body("C14", lambda: [GraphConstant()], ch, ctx, did, **kw)
+
+
 def obligations(tier):
     obs = []
+    # the composed graph stays what it was while a conductor works on it and across persist/restore
+    for did, steps in (("D10l", 7), ("D10e", 4), ("D10c", 4), ("D10s", 5), ("D15", 4), ("D04", 4)):
+        o = ob("C14", "e2c.conducted." + did, "vt.harness.C14:conducted", {"did": did, "steps": steps, "bits": True, "crash": "one"}, timeout=900)
+        o["antecedents"] = ["c14_graph_compared"]
+        obs.append(o)
     jvs = [None, "all"] if tier == "quick" else [None, "all", 0, 2]
     base = ob("C14", "e2c.family", "vt.harness.C14:family", {"join_values": jvs}, timeout=1800)
     base["antecedents"] = ["c14_ok"]
